@@ -101,8 +101,10 @@ func NewConsumerGroup(parent, fanOutPath string, q FanOutQueue) (ConsumerGroup, 
 		return nil, err
 	}
 
-	consumedSeq := int64(-1)
-	ackSeq := int64(-1)
+	// a new group starts at the acknowledged sequence of the queue,
+	// the messages at or below it may have been removed already.
+	ackSeq := q.Queue().AcknowledgedSeq()
+	consumedSeq := ackSeq
 
 	if hasMeta {
 		consumedSeq = int64(metaPage.ReadUint64(consumerGroupConsumedSeqOffset))
